@@ -197,8 +197,10 @@ def rand_value(rng, ikind, bnd):
         return None, s
     if ikind == "epoch":
         # seconds since 1970 read with -i %s: the value is held as one number, rounded by its own routine
-        # (not before 1970: a stdin line scanned for %s does not take the minus sign along)
-        return rng.randrange(cal.ORD_UNIX + 1, cal.ORD_UNIX + 40000) if rng.random() < .8 or o <= cal.ORD_UNIX else o, s
+        o = rng.randrange(cal.ORD_UNIX - 40000, cal.ORD_UNIX + 40000) if rng.random() < .8 else o
+        if o == cal.ORD_UNIX and s == 0:
+            s = 1           # epoch 0 is not accepted through %s (finding F4 of C11)
+        return o, s
     if ikind.endswith("T"):
         return o, s
     return o, None
